@@ -276,3 +276,96 @@ Example C20_projected_l2_example : exists r,
   sumsq (clipped (layer_bounds rt2_cfg 2) [3; 4]) == 25 /\
   (out - 5) * (out - 5) <= (1 + (1 # 2 ^ 51)) * 25.
 Proof. exact projected_l2_applies. Qed.
+
+(* ======================================================================
+   Dominance effects for BOUNDED inputs at weights level, and the guard of the
+   monotonic-dominance effect (Proofs/LinearDominanceGuards.v).
+   ====================================================================== *)
+From TFL Require Import Proofs.LinearDominanceGuards.
+
+(* ANY weights with k_weak <= k_dom and 0 <= k_dom (what the monotonic-dominance
+   constraint asks of an increasing pair), ANY bounds on both inputs: the effect
+   clause holds wherever the DOMINANT input is unclipped at x_dom and x_dom + d
+   (the weak input may be clipped).  Generalises C20_monotonic_dominance_effect
+   (both inputs unbounded) and, for weights not produced by the projection,
+   C20_projected_monotonic_dominance_effect. *)
+Theorem C20_monotonic_dominance_effect_unclipped : forall k b bs x dom weak d,
+  (dom < length k)%nat -> (weak < length k)%nat -> length bs = length k -> length x = length k ->
+  0 <= d -> nth weak k 0 <= nth dom k 0 -> 0 <= nth dom k 0 ->
+  unclipped (nth dom bs nob) (nth dom x 0) -> unclipped (nth dom bs nob) (nth dom x 0 + d) ->
+  lin_unit k b bs (set_nth weak (nth weak x 0 + d) x) - lin_unit k b bs x <=
+  lin_unit k b bs (set_nth dom (nth dom x 0 + d) x) - lin_unit k b bs x.
+Proof. exact mdom_effect_unclipped. Qed.
+Print Assumptions C20_monotonic_dominance_effect_unclipped.
+
+(* what holds at EVERY point (dominant input inside, on or outside its bounds): the weak
+   step moves the output by at most k_dom * d; the dominant step moves it by
+   k_dom * (clip(x_dom + d) - clip(x_dom)), which lies between 0 and k_dom * d *)
+Theorem C20_monotonic_dominance_effect_general : forall k b bs x dom weak d,
+  (dom < length k)%nat -> (weak < length k)%nat -> length bs = length k -> length x = length k ->
+  0 <= d -> nth weak k 0 <= nth dom k 0 -> 0 <= nth dom k 0 ->
+  let cd v := clip_opt (fst (nth dom bs nob)) (snd (nth dom bs nob)) v in
+  lin_unit k b bs (set_nth weak (nth weak x 0 + d) x) - lin_unit k b bs x <= nth dom k 0 * d /\
+  lin_unit k b bs (set_nth dom (nth dom x 0 + d) x) - lin_unit k b bs x ==
+    nth dom k 0 * (cd (nth dom x 0 + d) - cd (nth dom x 0)) /\
+  0 <= lin_unit k b bs (set_nth dom (nth dom x 0 + d) x) - lin_unit k b bs x /\
+  lin_unit k b bs (set_nth dom (nth dom x 0 + d) x) - lin_unit k b bs x <= nth dom k 0 * d.
+Proof. exact mdom_effect_general. Qed.
+Print Assumptions C20_monotonic_dominance_effect_general.
+
+(* the guard `unclipped` is NECESSARY: the property's clause "changes at least as much
+   along a dominant input as along its weak partner per unit step" is FALSE where the
+   dominant input is saturated.  Witness (reproduced on the real layer):
+   Linear(num_input_dims=2, monotonicities=[1, 1], monotonic_dominances=[(0, 1)],
+   input_min=[0, None], input_max=[1, None], use_bias=False), kernel (1, 1) = its own
+   projection, x = (1, 0), d = 1: dominant step 0, weak step 1. *)
+Theorem C20_monotonic_dominance_effect_clipped_refuted :
+  exists rt c n w r b x dom weak d,
+    lin_valid c n /\ length w = n /\ lin_project_col rt c w = Some r /\ length x = n /\
+    In (dom, weak) (lc_mdom c) /\ 0 <= d /\
+    unclipped (nth dom (layer_bounds c n) nob) (nth dom x 0) /\
+    ~ unclipped (nth dom (layer_bounds c n) nob) (nth dom x 0 + d) /\
+    ~ (lin_unit r b (layer_bounds c n) (set_nth weak (nth weak x 0 + d) x) - lin_unit r b (layer_bounds c n) x <=
+       lin_unit r b (layer_bounds c n) (set_nth dom (nth dom x 0 + d) x) - lin_unit r b (layer_bounds c n) x).
+Proof. exact mdom_effect_clipped_refuted. Qed.
+Print Assumptions C20_monotonic_dominance_effect_clipped_refuted.
+
+(* range dominance at weights level, DECREASING orientation (C20_range_dominance_effect is
+   the increasing one): (hd - ld) * k_dom <= (hw - lw) * k_weak, both typically <= 0 *)
+Theorem C20_range_dominance_effect_decreasing : forall k b bs x dom weak ld hd lw hw,
+  (dom < length k)%nat -> (weak < length k)%nat -> length bs = length k -> length x = length k ->
+  nth dom bs nob = (Some ld, Some hd) -> nth weak bs nob = (Some lw, Some hw) ->
+  ld <= hd -> lw <= hw ->
+  (hd - ld) * nth dom k 0 <= (hw - lw) * nth weak k 0 ->
+  lin_unit k b bs (set_nth weak lw x) - lin_unit k b bs (set_nth weak hw x) <=
+  lin_unit k b bs (set_nth dom ld x) - lin_unit k b bs (set_nth dom hd x).
+Proof. exact rdom_effect_decreasing. Qed.
+Print Assumptions C20_range_dominance_effect_decreasing.
+
+(* both orientations in absolute value *)
+Theorem C20_range_dominance_effect_abs : forall k b bs x dom weak ld hd lw hw,
+  (dom < length k)%nat -> (weak < length k)%nat -> length bs = length k -> length x = length k ->
+  nth dom bs nob = (Some ld, Some hd) -> nth weak bs nob = (Some lw, Some hw) ->
+  ld <= hd -> lw <= hw ->
+  qabs (nth weak k 0) * (hw - lw) <= qabs (nth dom k 0) * (hd - ld) ->
+  qabs (lin_unit k b bs (set_nth weak hw x) - lin_unit k b bs (set_nth weak lw x)) <=
+  qabs (lin_unit k b bs (set_nth dom hd x) - lin_unit k b bs (set_nth dom ld x)).
+Proof. exact rdom_effect_abs. Qed.
+Print Assumptions C20_range_dominance_effect_abs.
+
+(* satisfiable: kernel (2, 1), bounds [0, 4] and [0, 1], x = (1, 1/2), d = 1 (weak input clipped,
+   dominant not): weak step 1/2, dominant step 2; decreasing pair (-2, -1) on [0, 1]^2: sweeps 1 and 2 *)
+Example C20_monotonic_dominance_unclipped_example :
+  let k := [2; 1] in let bs := [(Some 0, Some 4); (Some 0, Some 1)] in let x := [1; 1#2] in
+  nth 1 k 0 <= nth 0 k 0 /\ 0 <= nth 0 k 0 /\
+  unclipped (nth 0 bs nob) (nth 0 x 0) /\ unclipped (nth 0 bs nob) (nth 0 x 0 + 1) /\
+  lin_unit k 0 bs (set_nth 1 (nth 1 x 0 + 1) x) - lin_unit k 0 bs x == 1#2 /\
+  lin_unit k 0 bs (set_nth 0 (nth 0 x 0 + 1) x) - lin_unit k 0 bs x == 2.
+Proof. exact mdom_unclipped_applies. Qed.
+Example C20_range_dominance_decreasing_example :
+  let k := [-(2); -(1)] in let bs := [(Some 0, Some 1); (Some 0, Some 1)] in
+  (1 - 0) * nth 0 k 0 <= (1 - 0) * nth 1 k 0 /\
+  qabs (nth 1 k 0) * (1 - 0) <= qabs (nth 0 k 0) * (1 - 0) /\
+  lin_unit k 0 bs (set_nth 1 0 [0; 0]) - lin_unit k 0 bs (set_nth 1 1 [0; 0]) == 1 /\
+  lin_unit k 0 bs (set_nth 0 0 [0; 0]) - lin_unit k 0 bs (set_nth 0 1 [0; 0]) == 2.
+Proof. exact rdom_decreasing_applies. Qed.
